@@ -391,4 +391,151 @@ def okTrim : Except Err (Nat × Nat × Bool) → Option (Nat × Nat × Bool)
 example : okTrim (trimNoAdopt { rows := (List.range 4).map (fun i => mkRow (i + 1) ⟨i + 1, [], [], [1], 1⟩),
                                 ret := some ⟨3, 0, 4⟩ } 3 0 0).2 = some (3, 3, false) := by decide +kernel
 
+/-! ### phase 3: boundary monotonicity over arbitrary sequences; the whole sync path -/
+
+/-- the store-side retention operations, in any order -/
+inductive RetOp
+  | adopt (t : Nat)
+  | trim (t mm mb : Nat)
+  | retain (t : Nat) (allowed : Bool) (mm mb : Nat)
+
+def retStep (ch : Chan) : RetOp → Chan
+  | .adopt t => (adopt ch t).1
+  | .trim t mm mb => (trimNoAdopt ch t mm mb).1
+  | .retain t a mm mb => (storeRetention ch t a mm mb).1
+
+def Le2 (a b : Chan) : Prop := (retOrZero a).loc ≤ (retOrZero b).loc ∧ (retOrZero a).phys ≤ (retOrZero b).phys
+
+theorem le2_refl (a : Chan) : Le2 a a := ⟨Nat.le_refl _, Nat.le_refl _⟩
+theorem le2_trans {a b c : Chan} (h1 : Le2 a b) (h2 : Le2 b c) : Le2 a c :=
+  ⟨Nat.le_trans h1.1 h2.1, Nat.le_trans h1.2 h2.2⟩
+
+theorem le2_loadLEO (ch : Chan) : Le2 ch (loadLEO ch).2 := by
+  have : retOrZero (loadLEO ch).2 = retOrZero ch := by unfold retOrZero; rw [loadLEO_ret]
+  unfold Le2; rw [this]; exact ⟨Nat.le_refl _, Nat.le_refl _⟩
+
+theorem trim_mono (ch : Chan) (t mm mb : Nat) : Le2 ch (trimNoAdopt ch t mm mb).1 := by
+  cases hres : (trimNoAdopt ch t mm mb) with
+  | mk ch' res =>
+    cases res with
+    | ok o =>
+      have := c10_trim_boundaries ch ch' t mm mb o hres
+      exact ⟨by rw [this.1]; exact Nat.le_refl _, this.2.1⟩
+    | error e =>
+      -- every error exit returns the channel itself or the channel with its LEO cache loaded
+      have : ch' = ch ∨ ch' = (loadLEO ch).2 := by
+        unfold trimNoAdopt at hres
+        by_cases h0 : t = 0
+        · rw [if_pos h0] at hres; left; exact (Prod.mk.inj hres).1.symm
+        rw [if_neg h0] at hres
+        have hz : retOrZero (loadLEO ch).2 = retOrZero ch := by unfold retOrZero; rw [loadLEO_ret]
+        dsimp only at hres
+        rw [hz] at hres
+        by_cases hl : t > (retOrZero ch).loc
+        · rw [if_pos hl] at hres; right; exact (Prod.mk.inj hres).1.symm
+        rw [if_neg hl] at hres
+        cases hrd : readForward (loadLEO ch).2.rows ((retOrZero ch).phys + 1) t (if mm > 0 then mm + 1 else 0) mb with
+        | error e' => rw [hrd] at hres; right; exact (Prod.mk.inj hres).1.symm
+        | ok rows =>
+          rw [hrd] at hres
+          dsimp only at hres
+          generalize trimPlan rows (retOrZero ch).phys t mm mb = p at hres
+          by_cases hv : retValid ⟨(retOrZero ch).loc, p.phys,
+              if (loadLEO ch).1 > (retOrZero ch).max then (loadLEO ch).1 else (retOrZero ch).max⟩ = false
+          · rw [if_pos hv] at hres; right; exact (Prod.mk.inj hres).1.symm
+          · rw [if_neg hv] at hres; have := (Prod.mk.inj hres).2; cases this
+      rcases this with e' | e' <;> rw [e']
+      · exact le2_refl _
+      · exact le2_loadLEO _
+
+theorem adopt_mono (ch : Chan) (t : Nat) : Le2 ch (adopt ch t).1 := c10_floor_mono_adopt ch t
+
+theorem retain_mono (ch : Chan) (t : Nat) (a : Bool) (mm mb : Nat) : Le2 ch (storeRetention ch t a mm mb).1 := by
+  unfold storeRetention
+  cases had : adopt ch t with
+  | mk ch1 r1 =>
+    have h1 : Le2 ch ch1 := by have := adopt_mono ch t; rw [had] at this; exact this
+    cases r1 with
+    | error e => exact h1
+    | ok u =>
+      dsimp only
+      cases a with
+      | false => simp only [Bool.false_eq_true, if_false]; exact h1
+      | true =>
+        simp only [if_true]
+        have h2 := trim_mono ch1 t mm mb
+        cases htr : trimNoAdopt ch1 t mm mb with
+        | mk ch2 r2 =>
+          rw [htr] at h2
+          cases r2 with
+          | error e => exact le2_trans h1 h2
+          | ok o => obtain ⟨x, y, z⟩ := o; exact le2_trans h1 h2
+
+/-- **c10_floor_mono**: for ANY sequence of boundary adoptions, physical trims and worker
+    retention tasks — boundaries in any order, regressions included — the logical and the
+    physical retention boundary of the store never move backwards. -/
+theorem c10_floor_mono (ch : Chan) (ops : List RetOp) : Le2 ch (ops.foldl retStep ch) := by
+  induction ops generalizing ch with
+  | nil => exact le2_refl _
+  | cons op rest ih =>
+    simp only [List.foldl_cons]
+    refine le2_trans ?_ (ih _)
+    cases op with
+    | adopt t => exact adopt_mono ch t
+    | trim t mm mb => exact trim_mono ch t mm mb
+    | retain t a mm mb => exact retain_mono ch t a mm mb
+
+example : (retOrZero ([RetOp.adopt 5, .adopt 2, .retain 3 true 0 0].foldl retStep
+    { rows := (List.range 6).map (fun i => mkRow (i + 1) ⟨i + 1, [], [], [1], 1⟩) })) = ⟨5, 3, 6⟩ := by decide +kernel
+
+
+theorem syncPage_subset (q : Query) (limit : Nat) (sync : List Nat) (read : RRes) :
+    ∀ m ∈ (syncPage q limit sync read).1, m ∈ read.msgs := by
+  intro m hm
+  unfold syncPage at hm
+  dsimp only at hm
+  have sub : ∀ x, x ∈ (if q.mode = 0 ∧ q.end_ > 0 then
+        (read.msgs.filter (fun m => !sync.contains m.seq)).filter (fun m => !decide (m.seq ≤ q.end_))
+      else if q.mode = 1 ∧ q.end_ > 0 then
+        (read.msgs.filter (fun m => !sync.contains m.seq)).filter (fun m => !decide (m.seq ≥ q.end_))
+      else read.msgs.filter (fun m => !sync.contains m.seq)) → x ∈ read.msgs := by
+    intro x hx
+    split at hx
+    · exact (List.mem_filter.mp (List.mem_filter.mp hx).1).1
+    · split at hx
+      · exact (List.mem_filter.mp (List.mem_filter.mp hx).1).1
+      · exact (List.mem_filter.mp hx).1
+  apply sub m
+  generalize (if q.mode = 0 ∧ q.end_ > 0 then
+        (read.msgs.filter (fun m => !sync.contains m.seq)).filter (fun m => !decide (m.seq ≤ q.end_))
+      else if q.mode = 1 ∧ q.end_ > 0 then
+        (read.msgs.filter (fun m => !sync.contains m.seq)).filter (fun m => !decide (m.seq ≥ q.end_))
+      else read.msgs.filter (fun m => !sync.contains m.seq)) = L at hm ⊢
+  have hin : ∀ x, x ∈ (if L.length > limit then L.take limit else L) → x ∈ L := by
+    intro x hx
+    split at hx
+    · exact List.mem_of_mem_take hx
+    · exact hx
+  by_cases hr : q.reverse = true
+  · rw [if_pos hr] at hm; exact hin m (List.mem_reverse.mp hm)
+  · rw [if_neg hr] at hm; exact hin m hm
+
+/-- **c10_sync_page**: the whole sync path the driver executes
+    (`readCommittedRequest` → `readLocalCommitted` → `channelMessagePageFromRead`): every message of a
+    sync page is an ordinary message (no SyncOnce barrier record), above the logical retention floor
+    and at most the committed frontier — up, down and "latest" queries, any bounds. -/
+theorem c10_sync_page (ch ch' : Chan) (q : Query) (lim rts minISR : Nat) (sync : List Nat) (r : RRes)
+    (hfloor : Nat.max rts (localRet (loadLEO ch).2) < maxU64)
+    (h : readLocal ch (syncReq q lim) rts minISR = (ch', .ok r)) :
+    ∀ m ∈ (syncPage q lim sync r).1, m.seq ∉ sync ∧ Nat.max rts (localRet (loadLEO ch).2) < m.seq ∧
+      m.seq ≤ committedOf (loadLEO ch).1 (loadLEO ch).2.ck minISR := by
+  intro m hm
+  exact ⟨c10_no_barrier q lim sync r m hm,
+    c10_read_bounds ch ch' (syncReq q lim) rts minISR r hfloor h m (syncPage_subset q lim sync r m hm)⟩
+
+example : ((syncPage ⟨0, 0, 0, 5, 0⟩ 5 [4]
+    (match (readLocal { rows := (List.range 6).map (fun i => mkRow (i + 1) ⟨i + 1, [], [], [1], 1⟩),
+                        ck := some ⟨0, 0, 5⟩, ret := some ⟨2, 0, 6⟩ } (syncReq ⟨0, 0, 0, 5, 0⟩ 5) 0 2).2 with
+     | .ok r => r | .error _ => ⟨[], 0⟩)).1.map (·.seq)) = [3, 5] := by decide +kernel
+
 end WK.C10
